@@ -55,8 +55,9 @@ TRUSTED = [
     "(layout, comments, qualifiers, names of locals, literal text, ++i/i++, braces around one statement, integer "
     "type of a loop counter are free) with the reviewed shapes the Coq model mirrors (gen_read_check, gen_mfc)",
     "harness/c20.cpp: includes src/cli/main.cpp with main renamed; srand() is interposed so that a case's seed "
-    "answers the tool's srand(time(NULL)) (only when C20_SEED is set: the library stream); quick tier is built -O0 without sanitizers "
-    "(a sanitized build of the tool takes about 4 minutes), thorough tier with ASan/UBSan",
+    "answers the tool's srand(time(NULL)) (only when C20_SEED is set: the library stream); quick tier is built -O0 with AddressSanitizer and "
+    "_GLIBCXX_ASSERTIONS (no UBSan: that build takes twice as long and runs twice as slow), thorough tier -O1 -g "
+    "with ASan + UBSan",
 ]
 
 ASSUMPTIONS = [
@@ -267,7 +268,8 @@ class Tool:
         r = self.ctx.run([self.exe, "cli"] + self.last_argv, "", timeout=30, env=env)
         if r.timed_out:
             self.timeouts += 1
-        res = {"rc": r.rc, "err": r.err, "out": r.out, "timed_out": r.timed_out, "output": None, "files": {}}
+        res = {"rc": r.rc, "err": r.err, "out": r.out, "timed_out": r.timed_out, "output": None, "files": {},
+               "sanitizer": r.sanitizer}
         if os.path.exists(fout):
             res["output"] = open(fout, "rb").read().decode("latin-1")
         for x in extra_files:
@@ -277,7 +279,8 @@ class Tool:
 
 
 def crashed(res):
-    return res["timed_out"] or res["rc"] < 0 or res["rc"] > 128
+    """killed by a signal, hung, or stopped by a sanitizer / libstdc++ assertion (those exit with status 1)"""
+    return res["timed_out"] or res["rc"] < 0 or res["rc"] > 128 or bool(res.get("sanitizer"))
 
 
 def echo_of(res, labels, enums):
@@ -1294,8 +1297,11 @@ def prepare(ctx):
         try:
             san = not ctx.quick
             box["ip"] = ctx.cpp("harness/c20_ip.cpp", name="c20_ip", sanitize=False)
+            # quick: -O0 with AddressSanitizer and libstdc++ assertions (45 s to build, 27 ms per run);
+            # thorough: vlib's -O1 -g ASan + UBSan build (about 4 minutes to build)
             box["exe"] = ctx.cpp("harness/c20.cpp", name="c20", sanitize=san,
-                                 extra=["-I", os.path.join(ctx.repo, "src")] + ([] if san else ["-O0"]))
+                                 extra=["-I", os.path.join(ctx.repo, "src")] + ([] if san else [
+                                     "-O0", "-fsanitize=address", "-fno-sanitize-recover=all", "-D_GLIBCXX_ASSERTIONS"]))
         except Exception as ex:          # re-raised in the main thread
             box["err"] = ex
 
